@@ -2,10 +2,6 @@ package main
 
 import (
 	"fmt"
-	"math/bits"
-	"runtime"
-	"sync"
-	"sync/atomic"
 	"time"
 
 	"github.com/free5gc/nas/security"
@@ -297,144 +293,106 @@ func c11ShrinkArgs(s Step) []Step {
 	return out
 }
 
-func checkC11(tier string, seed uint64) int {
-	t0 := time.Now()
-	known := loadKnown("C11")
-	var nstarts uint64
-	exhaustive := false
-	switch tier {
-	case "thorough":
-		nstarts = mod24
-		exhaustive = true
-	default:
-		nstarts = 1 << 16
+func c11Start(seed, idx uint64, tier string) uint32 {
+	if tier == "thorough" {
+		return uint32(idx % mod24)
 	}
-	workers := runtime.NumCPU()
-	var next uint64
-	const batch = 4096
-	var mu sync.Mutex
-	var firstFail *History
-	var histories, steps, nontriv uint64
-	ntBits := make([]uint64, mod24/64) // start states whose history is non-trivial
-	var samples []interface{}
-	var wg sync.WaitGroup
-	var stop atomic.Bool
-	for w := 0; w < workers; w++ {
-		wg.Add(1)
-		go func() {
-			defer wg.Done()
-			buf := make([]Step, 0, 64)
-			var lh, ls, ln uint64
-			for !stop.Load() {
-				lo := atomic.AddUint64(&next, batch) - batch
-				if lo >= nstarts {
-					break
-				}
-				hi := lo + batch
-				if hi > nstarts {
-					hi = nstarts
-				}
-				for idx := lo; idx < hi; idx++ {
-					start := uint32(idx)
-					if !exhaustive {
-						r := &Rng{s: mix(seed^0xc11, idx)}
-						o := uint32(r.U64() & 0xffff)
-						s := uint32(r.U64() & 0xff)
-						if r.Chance(60) {
-							o = []uint32{0, 1, 0xfffe, 0xffff, 0x7fff, 0x8000}[r.Intn(6)]
-						}
-						if r.Chance(60) {
-							s = []uint32{0, 254, 255, 1, 253}[r.Intn(5)]
-						}
-						start = o*256 + s
-					}
-					h, nt := genC11(seed, idx, start, buf)
-					lh++
-					ls += uint64(len(h.Steps))
-					if nt {
-						ln++
-						atomic.OrUint64(&ntBits[start/64], 1<<(start%64))
-					}
-					if v := runC11(h); v != nil {
-						h.Steps = append([]Step(nil), h.Steps...)
-						h.Violation = v
-						mu.Lock()
-						if firstFail == nil || h.Index < firstFail.Index {
-							hc := h
-							firstFail = &hc
-						}
-						mu.Unlock()
-						stop.Store(true)
-						break
-					}
-					if nt && idx%(nstarts/4+1) < 2 {
-						mu.Lock()
-						if len(samples) < 4 {
-							samples = append(samples, map[string]interface{}{"index": idx, "start": fmt.Sprintf("%#06x", start),
-								"instances": len(h.Instances), "steps": stepStrings(h.Steps)})
-						}
-						mu.Unlock()
-					}
-				}
+	r := &Rng{s: mix(seed^0xc11, idx)}
+	o := uint32(r.U64() & 0xffff)
+	s := uint32(r.U64() & 0xff)
+	if r.Chance(60) {
+		o = []uint32{0, 1, 0xfffe, 0xffff, 0x7fff, 0x8000}[r.Intn(6)]
+	}
+	if r.Chance(60) {
+		s = []uint32{0, 254, 255, 1, 253}[r.Intn(5)]
+	}
+	return o*256 + s
+}
+
+var c11Engine = &engine{
+	prop: "C11", sub: "c11",
+	total: func(tier string) uint64 {
+		if tier == "thorough" {
+			return mod24
+		}
+		return 1 << 16
+	},
+	gen: func(seed, idx uint64, tier string) (History, bool, uint64, []string) {
+		start := c11Start(seed, idx, tier)
+		h, nt := genC11(seed, idx, start, nil)
+		var class []string
+		if len(h.Instances) > 1 {
+			class = append(class, "multi_instance")
+		}
+		class = append(class, fmt.Sprintf("obs_mode_%d", h.Obs))
+		for _, s := range h.Steps {
+			if s.Op == "AddOne" && s.A > 1 {
+				class = append(class, "long_burst")
+				break
 			}
-			atomic.AddUint64(&histories, lh)
-			atomic.AddUint64(&steps, ls)
-			atomic.AddUint64(&nontriv, ln)
-		}()
-	}
-	wg.Wait()
-	distinct := 0
-	for _, w := range ntBits {
-		distinct += bits.OnesCount64(w)
-	}
-	wall := time.Since(t0).Seconds()
-	rc := 0
-	nviol := 0
-	if firstFail != nil {
-		nviol = 1
+		}
+		return h, nt, uint64(start), class
+	},
+	run: func(h History, _ *progress) *Viol { return runC11(h) },
+	normalise: func(h History) History {
 		// make the observation pattern independent of step positions before shrinking:
 		// prefer "observe after every step" (attributes the failure to one step), else
 		// "only explicit reads and the end"
 		for _, mode := range []int{0, 2} {
-			c := *firstFail
+			c := h
 			c.Obs = mode
 			if v := runC11(c); v != nil {
 				c.Violation = v
-				*firstFail = c
-				break
+				return c
 			}
 		}
-		min := shrink(*firstFail, runC11, c11ShrinkArgs)
-		rc = report("C11", min, known, func(p string) *Viol { return replayChild("c11", p) })
+		return h
+	},
+	shrinkArgs: c11ShrinkArgs,
+}
+
+func checkC11(tier string, seed uint64) int {
+	t0 := time.Now()
+	known := loadKnown("C11")
+	res := c11Engine.explore(seed, tier)
+	wall := time.Since(t0).Seconds()
+	rc, nviol := 0, 0
+	if res.fail != nil {
+		nviol = 1
+		rc = c11Engine.confirm(*res.fail, res.failRange, tier, known)
 	}
+	samples := histSamples(res.samples)
 	if len(samples) == 0 {
 		h, _ := genC11(seed, 0, 0xffffff, nil)
-		samples = append(samples, map[string]interface{}{"index": 0, "start": "0xffffff", "steps": stepStrings(h.Steps)})
+		samples = histSamples([]History{h})
 	}
+	exhaustive := tier == "thorough"
 	writeEvidence(&Evidence{
 		PropertyID: "C11", Tier: tier, Seed: seed, Level: "exploration",
 		Coverage: map[string]interface{}{
-			"evaluations":         histories,
-			"distinct_nontrivial": distinct,
+			"evaluations":         res.histories,
+			"distinct_nontrivial": res.distinct,
 			"rule": "one seeded operation history (8-44 steps over Set/SetSQN/SetOverflow/AddOne/Get/SQN/Overflow, 1-3 interleaved instances; every 64th history is a long-run history with bursts of 255..131k increments; state 0 is also entered as the zero value without Set) per start state; " +
 				"thorough enumerates every one of the 2^24 start states, quick draws 2^16 boundary-biased ones; non-trivial = the history crosses a 255->0 sequence-number carry " +
-				"or the 2^24-1->0 wrap at least once; distinct = distinct start states among those (bitset over 2^24)",
+				"or the 2^24-1->0 wrap at least once; distinct = distinct start states among those",
 			"samples":                 samples,
 			"exhaustive_start_states": exhaustive,
-			"start_states":            nstarts,
-			"steps_executed":          steps,
-			"nontrivial_histories":    nontriv,
-			"histories_per_hour":      float64(histories) / wall * 3600,
+			"start_states":            c11Engine.total(tier),
+			"steps_executed":          res.steps,
+			"nontrivial_histories":    res.nontrivial,
+			"history_classes":         res.classes,
+			"worker_processes":        res.processes,
+			"histories_per_hour":      float64(res.histories) / wall * 3600,
 			"fault_kinds_injected":    map[string]int{},
 			"fault_kinds_note":        "none available: security.Count is a single-owner value with no I/O, clock, lock or peer; the only quantifier is the operation history",
 			"simulated_time":          "none (no timers in the object)",
-			"real_vs_stub":            map[string]string{"security.Count": "real code from /repo working tree", "reference model": "24-bit integer in the harness", "scheduler": "history order decided by the seeded generator"},
+			"real_vs_stub":            map[string]string{"security.Count": "real code from /repo working tree", "reference model": "24-bit integer in the harness", "scheduler": "history order and instance interleaving decided by the seeded generator; worker processes execute their index range sequentially on one goroutine"},
 			"invariants_per_step":     []string{"observation density varies per history: after every step / every 4th step / only explicit reads and the end", "Get()==model", "SQN()==model mod 256", "Overflow()==model div 256", "Get()<2^24", "Get()==Overflow()*256+SQN()", "repeated read unchanged", "other instances unchanged"},
-			"determinism":             "history is a pure function of (seed, index); replay file re-executed in a fresh process before any VIOLATION is printed",
+			"determinism":             "a history is a pure function of (seed, tier, index); workers are sequential processes, so an execution is a pure function of (seed, tier, first index of the range, index); the replay file (with the preceding histories of its range if needed) is re-executed in a fresh process before any VIOLATION is printed",
 		},
 		Assumptions: []string{
-			"start states are entered through Set(overflow, sqn), the only public way to reach them",
-			"the history depth per start state is bounded (8-44 steps); deeper dependence than that is not explored",
+			"start states are entered through Set(overflow, sqn), the only public way to reach them (state 0 also as the zero value)",
+			"the history depth per start state is bounded (8-44 steps, long-run class up to ~10^6 increments); deeper dependence than that is not explored",
 		},
 		WallS: wall, Violations: nviol,
 	})
